@@ -141,6 +141,9 @@ SITES.update({
     # negative radius makes the scatterer invalid)
     "lr1": _site(0.3, 0.1, 0.45, 0.05, -0.1, blo=-0.25),
     "lr2": _site(0.5, 0.46, 0.8, 0.05, -0.1, blo=-0.25),
+    # "expr": the height is written as 10 - h, the radius as 1 - gap
+    "h": _site(5.0, 4.0, 6.0, 0.5, 9.0),
+    "gap": _site(0.5, 0.2, 0.7, 0.1, 2.0),
 })
 RADIUS_SITES = ("r", "r1", "wr1", "wr2", "tr1", "tr2", "tr3", "lr1", "lr2")
 VAL_NAMES_UB = ["guess", "lower", "upper", "lower-1ulp", "upper+1ulp",
@@ -187,12 +190,13 @@ KIND_SITES = {
     "tie3-rev": ["tn", "tr1", "tr2", "tr3", "alpha"],
     "tie2of3": ["tn", "tr1", "tr2", "tr3", "alpha"],
     "layered": ["n", "lr1", "lr2", "alpha"],
+    "expr": ["n", "gap", "h", "alpha"],
     # three spheres under LimitOverlaps: the pair that can overlap does not
     # include the sphere listed last
     "three-0.1": ["r1", "x2", "alpha"],
 }
 EXTRA_KINDS = ["norad", "exact-norad", "wide", "tie3", "tie3-rev", "tie2of3",
-               "layered", "three-0.1"]
+               "layered", "three-0.1", "expr"]
 TIE3_CENTERS = [(0.0, 0.1, 5.0), (1.5, 0.1, 5.0), (0.25, 1.625, 5.5)]
 FRACTION = {"two-0.1": 0.1, "two-0": 0, "two-1": 1, "two-0.125": 0.125,
             "two-tied": 0.1, "three-0.1": 0.1}
@@ -391,6 +395,10 @@ def _mk_scat(kind, g):
             # far from the other two for every value of the alphabets
             mem.append(Sphere(n=1.5, r=0.25, center=(0.0, 3.5, 5.0)))
         return Spheres(mem, warn=False)
+    if kind == "expr":
+        # reflected arithmetic: a number minus / over a parameter
+        return Sphere(n=g("n", 1.59), r=1.0 - g("gap", 0.5),
+                      center=(0.17, 0.11, 10.0 - g("h", 5.0)))
     if kind == "layered":
         return Sphere(n=[g("n", 1.59), 1.45],
                       r=[g("lr1", 0.3), g("lr2", 0.5)],
@@ -644,6 +652,8 @@ def scatterer_valid(c, vals):
     for s in RADIUS_SITES:
         if s in vals and vals[s] < 0:
             return False
+    if "gap" in vals and 1.0 - vals["gap"] < 0:      # r = 1 - gap
+        return False
     return True
 
 
